@@ -578,6 +578,9 @@ class Gen:
                            export_to="geo/sub/../geometry.ts", flatten_ok=False, no_ref=True))
         self.add(mk_struct("KfOpt", "named", [mk_field("x", ("param", 0))], params=[("T", None)], optional_fields=True,
                            flatten_ok=False, no_ref=True))
+        # the non-nullable spelling takes the field type through `<T as TS>::OptionInnerType`: the impl needs that bound (fix 9c750a6)
+        self.add(mk_struct("KfOptInner", "named", [mk_field("r", ("param", 0)), mk_field("k", ("option", ("leaf", "u8"))), mk_field("v", ("vec", ("param", 0)))],
+                           params=[("T", None)], optional_fields=False, flatten_ok=False, no_ref=True))
 
     def systematic(self):
         for shape, n in (("unit", 0), ("tuple", 0), ("tuple", 1), ("tuple", 2), ("named", 0), ("named", 1), ("named", 3)):
